@@ -72,6 +72,8 @@ def run(ctx):
         c["nodes"][0]["collide"] = collide
         c["qtype"], c["qclass"], c["flags"] = 1, 1, 0x0100
         cases.append(c)
+    cases += hc.udp_big_cases(rng, len(cases), 45 if T else 15)
+    n_scripted = len(cases)
     n_pair = 16 if T else 5
     for _ in range(n_pair):
         cases.append(hc.pair_case(rng, len(cases)))
@@ -79,7 +81,7 @@ def run(ctx):
         cases.append(hc.composite_case(rng, len(cases), PROP))
     log("%d cases: %d from %d TLC behaviours (%d query-shape behaviours exhaustive, %d infeasible for the real plugins), "
         "%d interleaved-client pairs on a stale lazy-cache entry, %d composite" % (
-            len(cases), n_scripted, len(behs), n_mal, infeasible, n_pair, len(cases) - n_scripted - 2 - n_pair))
+            len(cases), n_scripted, len(behs), n_mal, infeasible, n_pair, len(cases) - n_scripted - n_pair))
 
     binary = vlib.go_build(ctx, "drv_handler")
     st = hc.run_cases(ctx, PROP, binary, cases, "all")
